@@ -186,7 +186,7 @@ pub fn scenarios(thorough: bool) -> Vec<Hs> {
 }
 
 pub fn run(ctx: &Ctx) -> Outcome {
-    let depth = ctx.tier.pick(6, 10);
+    let depth = ctx.tier.pick(6, 12);
     let mut total = explore::Stats { exhaustive: true, ..Default::default() };
     let mut per = vec![];
     for s in scenarios(ctx.tier == core::Tier::Thorough) {
